@@ -317,21 +317,27 @@ func runC13(c *Ctx) {
 			jc := j.Node.(*ast.CallExpr)
 			last := jc.Args[len(jc.Args)-1]
 			okOperand := core.UsesObj(info, last, dp)
-			// every return of an error for a non-matching digest precedes the join: the join must not be reachable from the mismatch edge
+			// every path from the entry to the join has seen the pattern match the parameter, or the
+			// parameter be empty (the blobs directory itself)
 			okGuard := false
-			for _, cb := range g.CondBlocks() {
-				if len(core.CallsTo(info, cb.Cond, false, "regexp.Regexp.MatchString")) == 1 || len(core.CallsTo(info, cb.Cond, false, "regexp.MatchString")) == 1 {
-					// cond: digest != "" && !re.MatchString(digest)  → true edge must not reach the join
-					reach := false
-					g.Walk(core.StartOf(cb.B.Succs[0]), func(n ast.Node, l core.Loc) bool {
-						if l == j.Loc {
-							reach = true
+			if paths, complete := g.PathsTo(g.Entry(), j.Loc, 2000); complete && len(paths) > 0 {
+				okGuard = true
+				for _, p := range paths {
+					seen := false
+					for _, st := range p {
+						if st.Edge < 0 {
+							continue
 						}
-						return reach
-					})
-					s := core.ExprString(cb.Cond)
-					if !reach && strings.Contains(s, "!") && g.Dominates(g.CondLoc(cb.B), j.Loc) {
-						okGuard = true
+						e, isE := st.Node.(ast.Expr)
+						if !isE {
+							continue
+						}
+						if impliesValidated(info, e, st.Edge == 0, dp) {
+							seen = true
+						}
+					}
+					if !seen {
+						okGuard = false
 					}
 				}
 			}
@@ -707,7 +713,7 @@ func joinInventory(c *Ctx) {
 			if g.ReturnKind(ex) == core.RetError || len(ex.Return.Results) == 0 {
 				continue
 			}
-			r0 := ast.Unparen(ex.Return.Results[0])
+			r0 := ast.Unparen(g.ReturnedExpr(ex, 0))
 			if s, isC := core.ConstString(info, r0); isC && s == "" {
 				continue
 			}
@@ -735,4 +741,53 @@ func joinInventory(c *Ctx) {
 			c.Check("C13-R3", fn.Key()+" absJoin caller audited", c.Pos(call), fn.Name == "DiskCache.GetFile", "absJoin may only be called from GetFile")
 		}
 	}
+}
+
+// impliesValidated: does knowing that e has the value val imply "the pattern matched p, or p is
+// empty"?
+func impliesValidated(info *types.Info, e ast.Expr, val bool, p types.Object) bool {
+	return impliesAtom(e, val, func(a ast.Expr, v bool) bool {
+		switch x := a.(type) {
+		case *ast.BinaryExpr:
+			if (x.Op == token.EQL || x.Op == token.NEQ) && isIdentOf(info, x.X, p) {
+				if s, isS := core.ConstString(info, x.Y); isS && s == "" {
+					return (x.Op == token.EQL) == v
+				}
+			}
+		case *ast.CallExpr:
+			n := core.CalleeName(info, x)
+			if v && ((n == "regexp.Regexp.MatchString" && len(x.Args) == 1 && core.UsesObj(info, x.Args[0], p)) || (n == "regexp.MatchString" && len(x.Args) == 2 && core.UsesObj(info, x.Args[1], p))) {
+				return true
+			}
+		}
+		return false
+	})
+}
+
+// impliesAtom: does knowing that e has the value val imply the goal, where sat says which
+// atomic conditions (with their truth value) establish the goal on their own? Negation,
+// conjunction and disjunction are followed in both polarities: a true a&&b needs one side
+// to establish it, a false a&&b both, and dually for ||.
+func impliesAtom(e ast.Expr, val bool, sat func(atom ast.Expr, val bool) bool) bool {
+	e = ast.Unparen(e)
+	switch x := e.(type) {
+	case *ast.UnaryExpr:
+		if x.Op == token.NOT {
+			return impliesAtom(x.X, !val, sat)
+		}
+	case *ast.BinaryExpr:
+		switch x.Op {
+		case token.LAND:
+			if val {
+				return impliesAtom(x.X, true, sat) || impliesAtom(x.Y, true, sat)
+			}
+			return impliesAtom(x.X, false, sat) && impliesAtom(x.Y, false, sat)
+		case token.LOR:
+			if val {
+				return impliesAtom(x.X, true, sat) && impliesAtom(x.Y, true, sat)
+			}
+			return impliesAtom(x.X, false, sat) || impliesAtom(x.Y, false, sat)
+		}
+	}
+	return sat(e, val)
 }
